@@ -161,6 +161,11 @@ func (m *MuxBroker) Run() {
 		select {
 		case p.ch <- stream:
 		default:
+			// A connection for this ID is already pending and has not been
+			// accepted. Refuse this one instead of dropping it silently, so
+			// that its dialer gets an error rather than waiting forever for
+			// an ack that can never come.
+			stream.Close()
 		}
 
 		// Wait for a timeout
